@@ -621,7 +621,8 @@ def check_seq(seq, stats):
             if obs.startswith("ok"):
                 cur = int(op[1])
         elif kind == "drop":
-            pass
+            if len(op) > 1 and op[1].isdigit() and int(op[1]) < len(worlds) and (obs.startswith("ok") or obs.startswith("panic")):
+                worlds[int(op[1])] = None
         elif kind == "iterd":
             stats["iterd"] += 1
             if w is not None:
@@ -640,7 +641,7 @@ def check_seq(seq, stats):
             # fault was injected in this sequence (leak-on-panic is not among the guarantees)
             faulty = any(any(t.startswith("fault=") for t in o[1]) for o in seq.lines)
             m = re.match(r"live=(\d+) zlive=(-?\d+)", obs)
-            if m and not faulty and (m.group(1) != "0" or m.group(2) != "0"):
+            if m and not faulty and all(x is None for x in worlds) and (m.group(1) != "0" or m.group(2) != "0"):
                 hits.append(hit("C04", seq, no, raw, f"after dropping every world {m.group(1)} component values and {m.group(2)} zero-sized values were never dropped", "leak"))
         elif kind == "preset":
             if obs.startswith("ok"):
